@@ -187,6 +187,8 @@ class Run(object):
                     self.proto.connectionLost(failure.Failure(error.ConnectionLost("after exception")))
             elif a == "Disconnect":
                 self.proto.connectionLost(failure.Failure(error.ConnectionDone()))
+            elif a == "AppClose":
+                self.appf.built[0].transport.loseConnection()
             elif a == "AppWrite":
                 self.appw += 1
                 self.appf.built[0].transport.write(b"W")
